@@ -2,7 +2,7 @@
    functions map related arguments to related results; methods with callbacks do so whenever the
    two ways of applying a closure (reference / generator) map related closures and arguments to
    related results (one logical-relation lemma per combinator). *)
-From P2 Require Import Base.Prelude Base.PreludeProofs Sem.Num Sem.Syntax Sem.Ops Sem.Lib Sem.Ref Sem.Gen Sem.Sim Sem.RelProofs Sem.OpsProofs Sem.LibDataProofs.
+From P2 Require Import Base.Prelude Base.PreludeProofs Sem.Num Sem.Syntax Sem.Ops Sem.Lib Sem.Ref Sem.Gen Sem.Sim Sem.RelProofs Sem.OpsProofs Sem.LibDataProofs Sem.StrLibProofs.
 Require Import Lia.
 Local Open Scope Z_scope.
 
@@ -106,6 +106,29 @@ Proof.
     constructor. constructor; [split; auto|exact Hm]. }
   destruct (str_eqb mname n_isAvail). { apply all_avail_rel; auto. }
   constructor.
+Qed.
+
+
+(* first-order string methods (Sem/StrLib.v): related arguments have the same first-order view and
+   the result is a first-order value *)
+Lemma sarg_of_rel v v' : vrel v v' -> sarg_of v = sarg_of v'.
+Proof. intros H; inv H; reflexivity. Qed.
+
+Lemma sargs_rel args args' : Forall2 vrel args args' -> map sarg_of args = map sarg_of args'.
+Proof. induction 1 as [|v v' r r' Hv Hr IH]; cbn [map]; [reflexivity|]. rewrite (sarg_of_rel _ _ Hv), IH. reflexivity. Qed.
+
+Lemma sres_val_rel r : vrel (sres_val r) (sres_val r).
+Proof.
+  destruct r as [s|z|b|l]; cbn [sres_val]; try constructor.
+  induction l as [|x l IH]; cbn [map]; constructor; [constructor|exact IH].
+Qed.
+
+Lemma run_str_method_rel mname s args args' :
+  Forall2 vrel args args' -> orel (run_str_method mname s args) (run_str_method mname s args').
+Proof.
+  intros H. rewrite (run_str_method_same _ _ _ _ (sargs_rel _ _ H)).
+  destruct (run_str_method mname s args') eqn:E; try constructor.
+  destruct (run_str_method_shape _ _ _ _ E) as [r ->]. apply sres_val_rel.
 Qed.
 
 Section WithApps.
@@ -342,6 +365,20 @@ Proof.
     rewrite (is_func_rel _ _ _ Hw). destruct (is_func w' 2); [|constructor].
     inv Hv; try constructor.
     eapply rrel_bind; [apply merge_app_rel; auto|intros; repeat constructor; auto]. }
+  destruct (str_eqb mname n_visit).
+  { destruct H as [|v v' r r' Hv Hr]; [constructor|].
+    destruct Hr as [|w w' r r' Hw Hr2]; [constructor|].
+    destruct Hr2; [|constructor].
+    rewrite (is_func_rel _ _ _ Hw). destruct (is_func w' 2); [|constructor].
+    apply fold_app_rel; auto. }
+  destruct (str_eqb mname n_eval). { constructor. constructor. exact Hl. }
+  destruct (str_eqb mname n_set).
+  { destruct H as [|v v' r r' Hv Hr]; [constructor|].
+    destruct Hr as [|w w' r r' Hw Hr2]; [inv Hv; constructor|].
+    destruct Hr2; inv Hv; try (cbn; constructor; fail).
+    rewrite <- (Forall2_length' _ _ _ Hl).
+    destruct ((z <? 0) || (Z.of_nat (length l) <=? z)); constructor. constructor.
+    apply Forall2_app'; [apply Forall2_firstn; auto|]. constructor; [auto|apply Forall2_skipn; auto]. }
   constructor.
 Qed.
 
@@ -354,12 +391,13 @@ Proof.
   - destruct (str_eqb mname n_string); [|constructor]. cbn.
     destruct (fl_to_str f); repeat constructor.
   - destruct (str_eqb mname n_len); [repeat constructor|].
-    destruct (str_eqb mname n_string); repeat constructor.
+    destruct (str_eqb mname n_string); [repeat constructor|].
+    apply run_str_method_rel; auto.
   - destruct (str_eqb mname n_string); [|constructor]. cbn. destruct b; repeat constructor.
   - constructor.
   - apply run_list_method_rel; auto.
   - apply run_map_method_rel; auto.
-  - constructor.
+  - destruct (str_eqb mname n_args); repeat constructor.
 Qed.
 
 End WithApps.
